@@ -24,6 +24,7 @@ func init() {
 			"(R04.3) the captured value of a global (GlobalInstance.Val/ValHi, stale once an engine owns the global) is read directly only by the accessor methods, the engines and the instantiation-time constant-expression evaluators (sound because C03 R03.2 admits only immutable imported globals there); " +
 			"(R04.4) every path that makes a table reachable from another instance records that instance in the table's keep-alive list under its mutex; (R04.5) index spaces are not mixed: the import section is indexed only by its own loop variable, and the index recorded for an imported function is the function-space index its consumers compare against the import count; " +
 			"(R04.6) after every lowered call every mutable global is re-read unconditionally; (R04.8) the Go side of instance-relative builtins (memory.grow, table.grow, ref.func, wait/notify, listeners) acts on the calling instance, not on the entry instance. " +
+			"(R04.9) the interpreter re-uses the frame for return_call_indirect only within the same instance; (R04.10) a store to an imported global reloads the other imported mutable globals, which may alias it (genuine compiler defect found and fixed); (R04.11) the reference of an imported function is the defining module's function instance (genuine compiler defect found and fixed: LookupFunction resolved to function 0 of the exporter); (R04.12) active element segments write every slot they cover – a `ref.null` initialiser is skipped on this tree (known finding, pinned by an existing unit test). " +
 			"NOT decided: visibility of writes through generated code, state after a failed instantiation.",
 		Rules: []core.Rule{
 			{ID: "R04.9", Template: "T-CONSULT", Text: "interpreter return_call_indirect re-uses the frame only within the same instance", Min: 1},
